@@ -426,7 +426,7 @@ func runManagerClearRule(c *Ctx, rule string) {
 	dtfr := c.Fn(rule, "pkg/sessions/persistence.decodeTicketFromRequest")
 	clearCookie := c.Fn(rule, "(*pkg/sessions/persistence.ticket).clearCookie")
 	clearSession := c.Fn(rule, "(*pkg/sessions/persistence.ticket).clearSession")
-	mclear1 := c.Fn(rule, "(*pkg/sessions/persistence.Manager).Clear$1")
+	mclear1 := c.funcHandedTo(rule, mclear, clearSession) // the clearer handed to ticket.clearSession: closure or bound method
 	pstoreClear := c.Method(rule, "pkg/sessions/persistence.Store.Clear")
 	redisClear := c.Fn(rule, "(*pkg/sessions/redis.SessionStore).Clear")
 	clientDel := c.Method(rule, "pkg/sessions/redis.Client.Del")
@@ -544,7 +544,7 @@ func runManagerClearRule(c *Ctx, rule string) {
 			}
 			key := "closure-returns-store-clear|" + fnKey(mclear1)
 			cl, ok := extractOfCall(p, ret, 0)
-			if ok && walk.Invoke(c.P, pstoreClear)(p, cl) && p.Resolve(p.Arg(cl, 1)).V == mclear1.Params[0] {
+			if ok && walk.Invoke(c.P, pstoreClear)(p, cl) && len(mclear1.Params) > 0 && p.Resolve(p.Arg(cl, 1)).V == mclear1.Params[len(mclear1.Params)-1] {
 				c.ok(rule, key, p.Exit, "returns m.Store.Clear(ctx, key)")
 			} else {
 				c.bad(rule, key, p.Exit, "the clear closure does not return Store.Clear(ctx, key)", p, p.End())
